@@ -275,8 +275,37 @@ func inject(r *rng.R, env *gtext.Env, t *gtext.T, v *wv.V, hist func(string)) *w
 			hist("inject-unknown-id")
 		}
 		x := wv.Gen(r, wt, cfg, 0)
+		if byID[id] == nil && r.Chance(1, 8) {
+			// "of any … nesting depth": the injected value (under an unknown id) sits below 40–300 levels of structs,
+			// lists, sets and map values
+			x = deepWrap(r, x, 40+r.Intn(261))
+			hist("inject-deeply-nested")
+		}
 		pos := r.Intn(len(c.Fields) + 1)
 		c.Fields = append(c.Fields[:pos], append([]wv.Field{{ID: id, V: x}}, c.Fields[pos:]...)...)
 	}
 	return &c
+}
+
+// deepWrap puts v below `depth` levels of containers: struct field, list item, set item, map value
+// (one kind throughout, or a random mix).
+func deepWrap(r *rng.R, v *wv.V, depth int) *wv.V {
+	kind := r.Intn(5)
+	for i := 0; i < depth; i++ {
+		k := kind
+		if kind == 4 {
+			k = r.Intn(4)
+		}
+		switch k {
+		case 0:
+			v = &wv.V{T: wv.TStruct, Fields: []wv.Field{{ID: uint16(1 + r.Intn(3)), V: v}}}
+		case 1:
+			v = &wv.V{T: wv.TList, ET: v.T, Items: []*wv.V{v}}
+		case 2:
+			v = &wv.V{T: wv.TSet, ET: v.T, Items: []*wv.V{v}}
+		default:
+			v = &wv.V{T: wv.TMap, KT: wv.TI8, ET: v.T, Items: []*wv.V{{T: wv.TI8, U: uint64(i & 0x7f)}, v}}
+		}
+	}
+	return v
 }
